@@ -443,8 +443,14 @@ def unify(ta, tb, a=None, b=None):
     if isinstance(tb, OptTy) and tb.elem.sort == ta.sort:
         return tb
     if ta.sort == tb.sort:
-        # union member vs union root
-        return ta if isinstance(ta, UnionTy) else tb if isinstance(tb, UnionTy) else ta
+        # union member vs union root / two different members of one union
+        if isinstance(ta, UnionTy):
+            return ta
+        if isinstance(tb, UnionTy):
+            return tb
+        if isinstance(ta, ClassTy) and isinstance(tb, ClassTy) and ta.cname != tb.cname and ta.root:
+            return UnionTy(ta.world, ta.root)
+        return ta
     raise PyvcUnsupported(f"cannot unify {ta} / {tb}")
 
 
